@@ -372,17 +372,24 @@ func (x *Exec) applyContract(st *State, fn *ssa.Function, cts []*Contract, args 
 			vals[i] = x.havocResult(st, res.At(i).Type(), "ret$"+fn.Name())
 		}
 	}
+	pre := st.fork() // state before the call, for old() in the callee's postconditions
 	for _, ct := range cts {
 		env := &Env{vars: map[string]Value{}, pkg: x.pkgByNm[ct.pkg]}
 		for i, p := range fn.Params {
 			env.vars[p.Name()] = args[i]
 		}
+		env.old = pre
+		env.oldEnv = &Env{vars: env.vars, pkg: env.pkg}
 		for _, cl := range ct.requires {
 			// quantified preconditions are proved for an arbitrary (skolem) instance
 			x.specMode++
 			t := x.evalClause(st, env, cl)
 			x.specMode--
 			x.oblige(st, fmt.Sprintf("call.%s.pre", fn.Name()), t, "precondition of "+ct.label()+": "+cl.text)
+		}
+		// frame of the summarised callee: the listed locations get arbitrary new contents
+		for _, he := range ct.havocs {
+			x.havocLocation(st, env, he, fn.Name())
 		}
 		bindResults(env, fn, vals)
 		for _, cl := range ct.ensures {
@@ -695,6 +702,24 @@ func (x *Exec) verifyContract(ct *Contract) (err error) {
 	}
 	if len(finals) == 0 && len(ct.ensures) > 0 {
 		fail("no path reaches the postconditions of %s (vacuous contract)", ct.label())
+	}
+	// every loop clause must have produced at least one obligation (the loop body must be completable)
+	have := map[string]bool{}
+	for _, o := range x.obls {
+		if o.contract == ct {
+			n := o.name[len(ct.label())+1:]
+			have[n] = true
+		}
+	}
+	for ord, cls := range ct.invs {
+		if len(cls) > 0 && !have[fmt.Sprintf("inv%d.0.preserve", ord)] {
+			fail("loop %d of %s: no path completes an iteration (vacuous invariant)", ord, ct.label())
+		}
+	}
+	for ord, cls := range ct.bodies {
+		if len(cls) > 0 && !have[fmt.Sprintf("body%d.0", ord)] {
+			fail("loop %d of %s: no path completes an iteration (vacuous body clause)", ord, ct.label())
+		}
 	}
 	x.specMode++
 	defer func() { x.specMode-- }()
@@ -1181,4 +1206,35 @@ func mentionsEvents(e Expr) bool {
 	}
 	walk(e)
 	return found
+}
+
+// havocLocation: e must denote a struct field reached through pointers (p.f, p.f.g).
+func (x *Exec) havocLocation(st *State, env *Env, e Expr, who string) {
+	sel, ok := e.(*ESel)
+	if !ok {
+		fail("havoc needs a field selector")
+	}
+	base := x.eval(st, env, sel.x)
+	p, ok := base.(*Ptr)
+	if !ok || p.cell == nil || p.sym != nil {
+		fail("havoc: base of %s is not a plain pointer", sel.name)
+	}
+	cur := getPath(st.store[p.cell], p.path)
+	tp, ok := cur.(*Tuple)
+	if !ok {
+		fail("havoc: base is not a struct")
+	}
+	stt, ok := tp.typ.Underlying().(*types.Struct)
+	if !ok {
+		fail("havoc: base is not a struct")
+	}
+	for i := 0; i < stt.NumFields(); i++ {
+		if stt.Field(i).Name() == sel.name {
+			nv := x.havocLike(st, tp.el[i], stt.Field(i).Type(), "havoc$"+who+"$"+sel.name)
+			st.store[p.cell] = setPath(st.store[p.cell], appendPath(p.path, i), nv)
+			st.wlog = append(st.wlog, p.cell.id)
+			return
+		}
+	}
+	fail("havoc: no field %s", sel.name)
 }
